@@ -3,20 +3,27 @@ import Driver.Util
 namespace Driver.C16
 open CamVerif CamVerif.Camera Driver
 
-def errName : Err → String
-  | .controlIo => "Control.Io"
+def ctrlKinds : List String := ["Io", "Timeout", "Disconnected", "Busy", "InvalidDevice", "BufferTooSmall"]
+def strmKinds : List String := ["Io", "Timeout", "Disconnected", "BufferTooSmall", "SendError", "InvalidPayload"]
+def stopKinds : List String := ["Poisoned", "Timeout", "Disconnected", "BufferTooSmall", "SendError", "InvalidPayload"]
+
+/-- `kind` selects which variant the fakes return for an injected fault (the camera propagates
+it unchanged; the model's `controlIo`/`streamIo`/`streamPoisoned` stand for "the injected
+control / stream / loop-stop error"). -/
+def errName (kind : Nat) : Err → String
+  | .controlIo => "Control." ++ ctrlKinds.getD kind "?"
   | .controlNotOpened => "Control.NotOpened"
   | .controlInvalidData => "Control.InvalidData"
-  | .streamIo => "Stream.Io"
-  | .streamPoisoned => "Stream.Poisoned"
+  | .streamIo => "Stream." ++ strmKinds.getD kind "?"
+  | .streamPoisoned => "Stream." ++ stopKinds.getD kind "?"
   | .inStreaming => "Stream.InStreaming"
   | .ctxtMissing => "CtxtMissing"
   | .invalidXml => "InvalidXml"
   | .genApiDevice => "GenApi.Device"
 
-def showRes : Res Err Unit → String
+def showRes (kind : Nat) : Res Err Unit → String
   | .ok _ => "ok"
-  | .err e => "err:" ++ errName e
+  | .err e => "err:" ++ errName kind e
   | .panic => "panic"
 
 def subTok : Sub → String
@@ -41,17 +48,39 @@ def outTok : Out → String
 
 def b (v : Bool) : String := if v then "1" else "0"
 
-def showDev (d : Dev) : String :=
-  s!"R{b d.loopFlag}N{d.loops}E{b d.enabled}L{d.lock}A{b d.acquiring}C{b d.ctrlOpen}S{b d.strmOpen}X{b d.ctxt.isSome}K{b d.cache.lock}{b d.cache.start}{b d.cache.stop}{b d.cache.gain}"
+def showChan : Option (Nat × Nat) → String
+  | none => "H-"
+  | some (f, k) => s!"H{f}.{k}"
 
-def opOf (s : String) : Option Op :=
-  if s == "open" then some .open
-  else if s == "load" then some .load
-  else if s == "stop" then some .stop
-  else if s == "close" then some .close
-  else if s == "param" then some .param
-  else if s.startsWith "start" then (s.drop 5).toNat?.map Op.start
+def showDev (d : Dev) : String :=
+  s!"R{b d.loopFlag}N{d.loops}E{b d.enabled}L{d.lock}A{b d.acquiring}C{b d.ctrlOpen}S{b d.strmOpen}X{b d.ctxt.isSome}K{b d.cache.lock}{b d.cache.start}{b d.cache.stop}{b d.cache.gain}{showChan d.chan}"
+
+/-- a request step: a call of the camera, or state surgery through the public API -/
+inductive Step where
+  | call (op : Op)
+  | preload   -- `Camera::new(.., Some(ctxt), ..)` / `set_context`: install a fresh context
+  | unload    -- `camera.ctxt = None`
+
+def stepOf (s : String) : Option Step :=
+  if s == "open" then some (.call .open)
+  else if s == "load" then some (.call .load)
+  else if s == "stop" then some (.call .stop)
+  else if s == "close" then some (.call .close)
+  else if s == "param" then some (.call .param)
+  else if s == "preload" then some .preload
+  else if s == "unload" then some .unload
+  else if s.startsWith "start" then (s.drop 5).toNat?.map (fun c => .call (.start c))
   else none
+
+/-- one step of a request -/
+def doStep (env : Env) (st : Step) (s : State) : Res Err Unit × State :=
+  match st with
+  | .call op => step env op s
+  | .preload =>
+    if env.xml.parseOk then
+      (.ok (), { s with dev := { s.dev with ctxt := some env.xml, cache := Cache.empty } })
+    else (.err .controlInvalidData, s)
+  | .unload => (.ok (), { s with dev := { s.dev with ctxt := none, cache := Cache.empty } })
 
 def xmlOf (s : String) : Option Xml :=
   match s.toList with
@@ -61,25 +90,25 @@ def xmlOf (s : String) : Option Xml :=
 def faultsOf (s : String) : Option (List Nat) :=
   if s == "-" then some [] else (s.splitOn ",").mapM String.toNat?
 
-/-- run the calls one by one: (results with state after each call, trace segments) -/
-def runAll (env : Env) : List Op → State → String × String
+/-- run the steps one by one: (results with state after each step, trace segments) -/
+def runAll (env : Env) (kind : Nat) : List Step → State → String × String
   | [], _ => ("", "")
-  | op :: ops, s =>
-    let (r, s') := step env op s
+  | st :: sts, s =>
+    let (r, s') := doStep env st s
     let seg := s'.trace.drop s.trace.length
-    let (a, t) := runAll env ops s'
-    (s!"{showRes r}[{showDev s'.dev}] " ++ a,
+    let (a, t) := runAll env kind sts s'
+    (s!"{showRes kind r}[{showDev s'.dev}] " ++ a,
      seg.foldl (fun acc e => acc ++ " " ++ subTok e.sub ++ outTok e.out) "" ++ " ;" ++ t)
 
 def handle : List String → String
-  | "run" :: xml :: mode :: faults :: ops =>
-    match xmlOf xml, faultsOf faults, ops.mapM opOf with
-    | some xml, some fs, some ops =>
+  | "run" :: xml :: mode :: kind :: faults :: ops =>
+    match xmlOf xml, kind.toNat?, faultsOf faults, ops.mapM stepOf with
+    | some xml, some kind, some fs, some sts =>
       if mode != "keep" && mode != "kill" then "bad-op" else
       let env : Env := { plan := fun k => fs.contains k, xml := xml, stopFailKills := mode == "kill" }
-      let (a, t) := runAll env ops State.init
+      let (a, t) := runAll env kind sts State.init
       a ++ "|" ++ t
-    | _, _, _ => "bad-op"
+    | _, _, _, _ => "bad-op"
   | _ => "bad-op"
 
 end Driver.C16
